@@ -99,6 +99,8 @@ where
   // samplestate) to local container, datasample_cache.
   fn fill_and_lock_local_datasample_cache(&mut self) -> ReadResult<()> {
     while let Some(dcc) = self.simple_data_reader.try_take_one()? {
+      #[cfg(rustdds_verif)]
+      crate::verif::hooks::yield_point(31);
       self
         .datasample_cache
         .fill_from_deserialized_cache_change(dcc);
@@ -180,6 +182,8 @@ where
   ) -> ReadResult<Vec<DataSample<&D>>> {
     // Clear notification buffer. This must be done first to avoid race conditions.
     self.drain_read_notifications();
+    #[cfg(rustdds_verif)]
+    crate::verif::hooks::yield_point(30);
     self.fill_and_lock_local_datasample_cache()?;
 
     let mut selected = self.select_keys_for_access(read_condition);
@@ -239,6 +243,8 @@ where
   ) -> ReadResult<Vec<DataSample<D>>> {
     // Clear notification buffer. This must be done first to avoid race conditions.
     self.drain_read_notifications();
+    #[cfg(rustdds_verif)]
+    crate::verif::hooks::yield_point(30);
 
     self.fill_and_lock_local_datasample_cache()?;
     let mut selected = self.select_keys_for_access(read_condition);
@@ -354,6 +360,8 @@ where
   ) -> ReadResult<Vec<Sample<D, D::K>>> {
     // Clear notification buffer. This must be done first to avoid race conditions.
     self.drain_read_notifications();
+    #[cfg(rustdds_verif)]
+    crate::verif::hooks::yield_point(30);
     self.fill_and_lock_local_datasample_cache()?;
 
     let mut selected = self.select_keys_for_access(read_condition);
@@ -690,6 +698,8 @@ where
   ) -> ReadResult<Vec<DataSample<D>>> {
     // Clear notification buffer. This must be done first to avoid race conditions.
     self.drain_read_notifications();
+    #[cfg(rustdds_verif)]
+    crate::verif::hooks::yield_point(30);
 
     self.fill_and_lock_local_datasample_cache()?;
 
@@ -935,9 +945,13 @@ where
             // 1. synchronously store waker to background thread (must rendezvous)
             // 2. try take_bare again, in case something arrived just now
             // 3. if nothing still, return pending.
+            #[cfg(rustdds_verif)]
+            crate::verif::hooks::yield_point(32);
             datareader
               .simple_data_reader
               .set_waker(Some(cx.waker().clone()));
+            #[cfg(rustdds_verif)]
+            crate::verif::hooks::yield_point(33);
             match datareader.take_bare(1, ReadCondition::not_read()) {
               Err(e) => Poll::Ready(Some(Err(e))),
               Ok(mut v) => match v.pop() {
@@ -1027,9 +1041,13 @@ where
             // 1. synchronously store waker to background thread (must rendezvous)
             // 2. try take again, in case something arrived just now
             // 3. if nothing still, return pending.
+            #[cfg(rustdds_verif)]
+            crate::verif::hooks::yield_point(32);
             datareader
               .simple_data_reader
               .set_waker(Some(cx.waker().clone()));
+            #[cfg(rustdds_verif)]
+            crate::verif::hooks::yield_point(33);
             match datareader.take(1, ReadCondition::not_read()) {
               Err(e) => Poll::Ready(Some(Err(e))),
               Ok(mut v) => match v.pop() {
